@@ -1,0 +1,12 @@
+//go:build verif
+// +build verif
+
+package cmd
+
+import "github.com/massnetorg/mass-core/massutil"
+
+// Verification hook (build tag "verif"): exposes the CLI's amount parser, which nothing outside
+// this package can reach. Nothing in the production build references this file.
+
+// VerifStringToAmount is stringToAmount (amount arguments of the binding commands).
+func VerifStringToAmount(s string) (massutil.Amount, error) { return stringToAmount(s) }
